@@ -22,16 +22,16 @@ Theorem C12_encode_length : forall a,
 Proof. exact encode_length. Qed.
 Print Assumptions C12_encode_length.
 
-Theorem C12_args_well_typed : forall cast gid o,
+Theorem C12_args_well_typed : forall (cast : casts) gid o,
   wf_gid gid -> wf_obj o -> wt_args (ck_args cast gid o).
 Proof. exact ck_args_wt. Qed.
 Print Assumptions C12_args_well_typed.
 
 (* ---- cross-domain separation, on pre-images ---- *)
 
-Theorem C12_preimage_injective : forall g g' o o',
+Theorem C12_preimage_injective : forall tron g g' o o',
   wf_gid g -> wf_gid g' -> wf_obj o -> wf_obj o' ->
-  go_preimage g o = go_preimage g' o' -> b32_of_bytes g = b32_of_bytes g' /\ o = o'.
+  go_preimage tron g o = go_preimage tron g' o' -> b32_of_bytes g = b32_of_bytes g' /\ o = o'.
 Proof. exact go_preimage_injective. Qed.
 Print Assumptions C12_preimage_injective.
 
@@ -44,18 +44,18 @@ Print Assumptions C12_gravity_id_injective.
 
 Theorem C12_layout_tables_agree : forall k,
   option_map (map strip_cast) (norm_go_table (go_table k)) = norm_sol_table k (sol_table k)
-  /\ norm_go_table (tron_table k) = norm_go_table (go_table k)
+  /\ option_map (map strip_cast) (norm_go_table (tron_table k)) = norm_sol_table k (sol_table k)
   /\ norm_sol_table k (sol_table k) <> None.
 Proof. exact tables_agree. Qed.
 Print Assumptions C12_layout_tables_agree.
 
 Theorem C12_go_args_from_table : forall gid o,
-  table_args (norm_go_table (go_table (kind_of o))) gid o = Some (go_checkpoint_args gid o).
+  table_args (norm_go_table (go_table (kind_of o))) gid o = Some (go_checkpoint_args false gid o).
 Proof. exact go_args_from_table. Qed.
 Print Assumptions C12_go_args_from_table.
 
 Theorem C12_tron_args_from_table : forall gid o,
-  table_args (norm_go_table (tron_table (kind_of o))) gid o = Some (go_checkpoint_args gid o).
+  table_args (norm_go_table (tron_table (kind_of o))) gid o = Some (go_checkpoint_args true gid o).
 Proof. exact tron_args_from_table. Qed.
 Print Assumptions C12_tron_args_from_table.
 
@@ -70,18 +70,18 @@ Theorem C12_layout_agrees_from_tables : forall gid o tg ts r,
 Proof. exact layout_agrees_from_tables. Qed.
 Print Assumptions C12_layout_agrees_from_tables.
 
-Theorem C12_layout_agrees : forall gid o,
-  wf_obj o -> u64_small o -> go_preimage gid o = sol_preimage gid o.
+Theorem C12_layout_agrees : forall tron gid o,
+  wf_obj o -> u64_small o -> go_preimage tron gid o = sol_preimage gid o.
 Proof. exact layout_agrees_small. Qed.
 Print Assumptions C12_layout_agrees.
 
-Theorem C12_layout_agrees_iff : forall gid o,
-  wf_gid gid -> wf_obj o -> (go_preimage gid o = sol_preimage gid o <-> u64_small o).
+Theorem C12_layout_agrees_iff : forall cs gid o,
+  wf_gid gid -> wf_obj o -> (encode (ck_args cs gid o) = sol_preimage gid o <-> u64_small_cs cs o).
 Proof. exact layout_agrees_iff. Qed.
 Print Assumptions C12_layout_agrees_iff.
 
-Theorem C12_uint64_cast_refuted :
-  exists gid o, wf_gid gid /\ wf_obj o /\ go_preimage gid o <> sol_preimage gid o.
+Theorem C12_uint64_cast_refuted : forall cs, k_set_nonce cs = true ->
+  exists gid o, wf_gid gid /\ wf_obj o /\ encode (ck_args cs gid o) <> sol_preimage gid o.
 Proof. exact uint64_cast_refuted. Qed.
 Print Assumptions C12_uint64_cast_refuted.
 
@@ -130,6 +130,28 @@ Theorem C12_confirm_not_overwritten : forall recover st m e,
 Proof. exact confirm_not_overwritten. Qed.
 Print Assumptions C12_confirm_not_overwritten.
 
+Theorem C12_accepted_is_contract_digest : forall recover st m k,
+  handle recover st m = Accepted k ->
+  exists o sig orc,
+    assoc okey_eqb (msg_okey m) (st_objs st) = Some o /\
+    assoc Z.eqb (snd k) (st_oracles st) = Some orc /\
+    m_sig m = Some sig /\
+    (wf_obj o -> u64_small o ->
+     sig_signer recover (st_tron st) (sol_preimage (st_gid st) o) sig = Some (o_external orc)).
+Proof. exact accepted_is_contract_digest. Qed.
+Print Assumptions C12_accepted_is_contract_digest.
+
+Theorem C12_no_transplant : forall recover st m k g0 o0 sig orc,
+  handle recover st m = Accepted k ->
+  m_sig m = Some sig ->
+  assoc Z.eqb (snd k) (st_oracles st) = Some orc ->
+  (forall P, sig_signer recover (st_tron st) P sig = Some (o_external orc) -> P = go_preimage (st_tron st) g0 o0) ->
+  wf_gid g0 -> wf_obj o0 -> wf_gid (st_gid st) ->
+  forall o, assoc okey_eqb (msg_okey m) (st_objs st) = Some o -> wf_obj o ->
+  b32_of_bytes (st_gid st) = b32_of_bytes g0 /\ o = o0.
+Proof. exact no_transplant. Qed.
+Print Assumptions C12_no_transplant.
+
 (* ---- who signs the transaction ---- *)
 
 Theorem C12_direct_signer_is_bridger : forall recover st m k,
@@ -162,6 +184,6 @@ Theorem C12_confirm_nonvacuous :
     = Rejected EBridger /\
   handle rec_ok ex_state {| m_kind := KOracleSet; m_token := 0; m_nonce := 3; m_bridger := 21; m_external := 31; m_sig := Some (repeat 1 64) |}
     = Rejected ESignature /\
-  wf_obj ex_set /\ u64_small ex_set /\ zlen (go_preimage (st_gid ex_state) ex_set) = 352.
+  wf_obj ex_set /\ u64_small ex_set /\ zlen (go_preimage false (st_gid ex_state) ex_set) = 352.
 Proof. exact confirm_nonvacuous. Qed.
 Print Assumptions C12_confirm_nonvacuous.
